@@ -234,3 +234,47 @@ func H_include() {
 	symx.Assert(ok, "B sees the included file's functions, classes and return value as if it ran alone")
 	symx.Reach("end")
 }
+
+// H_enum_order: enumeration order against an EXPLICIT oracle (insertion order), for property /
+// key names deliberately not in alphabetical order: declared properties, properties added later,
+// string-keyed arrays built by literal and by successive stores, after unset and re-insertion.
+func H_enum_order() {
+	k := symx.Choose("case", 6)
+	perm := symx.Choose("name_order", 6) // which permutation of three names is the insertion order
+	names := [][]string{{"zeta", "alpha", "mid"}, {"zeta", "mid", "alpha"}, {"alpha", "zeta", "mid"}, {"alpha", "mid", "zeta"}, {"mid", "zeta", "alpha"}, {"mid", "alpha", "zeta"}}[perm]
+	var src string
+	var want []int
+	switch k {
+	case 0: // declared properties
+		src = "class P { public $" + names[0] + " = 1; public $" + names[1] + " = 2; public $" + names[2] + " = 3; } $o = new P(); foreach ($o as $k => $v) { emit($v); }"
+		want = []int{1, 2, 3}
+	case 1: // properties added after construction
+		src = "class P { } $o = new P(); $o->" + names[0] + " = 1; $o->" + names[1] + " = 2; $o->" + names[2] + " = 3; foreach ($o as $k => $v) { emit($v); }"
+		want = []int{1, 2, 3}
+	case 2: // $this enumerated from inside
+		src = "class P { public $" + names[0] + " = 1; public $" + names[1] + " = 2; function all() { foreach ($this as $k => $v) { emit($v); } return 0; } } $o = new P(); $o->" + names[2] + " = 3; $o->all();"
+		want = []int{1, 2, 3}
+	case 3: // array literal
+		src = "$m = [\"" + names[0] + "\" => 1, \"" + names[1] + "\" => 2, \"" + names[2] + "\" => 3]; foreach ($m as $k => $v) { emit($v); }"
+		want = []int{1, 2, 3}
+	case 4: // successive stores, one key overwritten (keeps its place)
+		src = "$m = []; $m[\"" + names[0] + "\"] = 1; $m[\"" + names[1] + "\"] = 2; $m[\"" + names[2] + "\"] = 3; $m[\"" + names[0] + "\"] = 4; foreach ($m as $k => $v) { emit($v); }"
+		want = []int{4, 2, 3}
+	case 5: // unset and re-insert: the key moves to the end
+		src = "$m = [\"" + names[0] + "\" => 1, \"" + names[1] + "\" => 2, \"" + names[2] + "\" => 3]; unset($m[\"" + names[0] + "\"]); $m[\"" + names[0] + "\"] = 5; foreach ($m as $k => $v) { emit($v); }"
+		want = []int{2, 3, 5}
+	}
+	got, ok := runLog(src)
+	symx.Assert(ok, "enumeration program runs")
+	if !ok {
+		return
+	}
+	symx.Assert(len(got) == len(want), "every entry is enumerated exactly once")
+	if len(got) != len(want) {
+		return
+	}
+	for i := range want {
+		symx.Assert(got[i].Kind == 'i' && got[i].I == want[i], "entries are enumerated in insertion order, whatever their names")
+	}
+	symx.Reach("end")
+}
